@@ -46,6 +46,7 @@ From CG Require Model.DotOfRegex.
 From CG Require Import Model.EmitData.
 From CG Require Import Spec.InvocationsSub.
 From CG Require Import Model.Compiler.
+From CG Require Import Model.Diag.
 (* add new Require lines above this line *)
 Require Import ExtrOcamlBasic ExtrOcamlString.
 Extraction Language OCaml.
@@ -167,5 +168,8 @@ Separate Extraction
   InvocationsSub.spec_run_sw
   Compiler.compile_bash
   Compiler.mkoracles
+  Diag.render
+  Diag.error_messages
+  Diag.warning_messages
   (* add new roots above this line *)
   Prelude.pow2.
